@@ -119,6 +119,8 @@ fn park_points(s: &KStep) -> Vec<usize> {
 }
 
 type Rows = BTreeMap<Key, (HLCTimestamp, Option<Vec<u8>>)>;
+/// Serialised keyspace sets of the first life, by keyspace name.
+type PreSets = BTreeMap<String, Vec<u8>>;
 
 /// Builds a fresh group on `store`, loads it, and compares every listed keyspace.
 async fn restart_and_compare<S: Storage>(
@@ -127,6 +129,7 @@ async fn restart_and_compare<S: Storage>(
     st: &mut Stats,
     case: &dyn Fn() -> J,
     crash_kind: &str,
+    pre_sets: Option<&PreSets>,
 ) -> Option<(ec::KeyspaceGroup<S>, BTreeMap<String, Rows>)> {
     let clock = Clock::new(9);
     let group = ec::KeyspaceGroup::new(store.clone(), clock).await;
@@ -190,6 +193,26 @@ async fn restart_and_compare<S: Storage>(
                 case,
             );
         }
+        // a restart must not make the node refuse what it would have applied before it
+        // stopped ("converges with its peers as in C01": repair traffic for writes it has
+        // missed is decided by will_apply): between requests the rebuilt set holds the same
+        // rows as the old one, so every pool operation the old set would apply, the
+        // rebuilt one must apply too
+        if let Some(pre) = pre_sets.and_then(|p| p.get(ks_name.as_str())).and_then(|b| decode_set(b).ok()) {
+            if pre.verif_snapshot().entries == snap.entries && pre.verif_snapshot().dead == snap.dead {
+                for op in pool {
+                    st.inc("acceptance_probes");
+                    if pre.will_apply(op.key, op.ts) && !set.will_apply(op.key, op.ts) {
+                        st.violation(
+                            &format!("restart-made-the-node-refuse-an-operation/{crash_kind}"),
+                            || format!("keyspace {ks_name:?}: before the restart the node would apply {} key {} at {}, after rebuilding from storage it refuses it (cut-offs before {:?}, after {:?})", if op.del { "delete" } else { "insert" }, op.key, op.ts, pre.verif_snapshot().safe_stamps, snap.safe_stamps),
+                            case,
+                        );
+                        break;
+                    }
+                }
+            }
+        }
         for (id, (ts, data)) in &rows {
             if let Some(d) = data {
                 let expect = pool.iter().find(|o| o.key == *id && o.ts == *ts && !o.del).map(payload_for);
@@ -209,7 +232,7 @@ async fn first_life<I>(
     store: Arc<FaultStore<I>>,
     history: &[KStep],
     in_flight: Option<(&KStep, usize)>,
-) -> Result<u128, String>
+) -> Result<(u128, PreSets), String>
 where
     I: Storage,
     I::Error: std::fmt::Display,
@@ -237,6 +260,16 @@ where
     // every acknowledged mutation must be durable (a restart rebuilds from storage only):
     // storage holds the id at that stamp or a newer one, unless the stamp lies behind the
     // origin's cut-off (then it was legitimately ignored, or purged since)
+    // only the newest acknowledged mutation of an id can be expected in storage: an older
+    // one was superseded, and the superseding tombstone may itself have been purged since
+    let mut newest: BTreeMap<(usize, u64), datacake_crdt::HLCTimestamp> = BTreeMap::new();
+    for (ksi, id, ts) in &acked {
+        let e = newest.entry((*ksi, *id)).or_insert(*ts);
+        if *ts > *e {
+            *e = *ts;
+        }
+    }
+    let acked: Vec<(usize, u64, datacake_crdt::HLCTimestamp)> = newest.into_iter().map(|((k, i), t)| (k, i, t)).collect();
     for (ksi, id, ts) in &acked {
         let name = KEYSPACES[*ksi];
         let rows = read_rows(store.as_ref(), name).await?;
@@ -259,6 +292,13 @@ where
         // observe() reads the keyspace "ks" rows only; add this keyspace's own rows
         let rows = read_rows(store.as_ref(), name).await?;
         fp.push((obs.live, obs.dead, obs.versions, rows));
+    }
+    // the sets as they are at the end of the history (before any in-flight request)
+    let mut pre_sets = PreSets::new();
+    for name in KEYSPACES {
+        let ks = group.get_or_create_keyspace(name).await;
+        let bytes = ks.send(ec::Serialize).await.map_err(|e| e.to_string())?;
+        pre_sets.insert(name.to_string(), bytes);
     }
     if let Some((s, k)) = in_flight {
         store.plan([Fault::ParkAfter(k)]);
@@ -286,7 +326,7 @@ where
         task.abort();
         store.plan([]);
     }
-    Ok(fp128(&fp))
+    Ok((fp128(&fp), pre_sets))
 }
 
 async fn execute_in_memory<I>(
@@ -306,8 +346,8 @@ where
         .run_until(async {
             let _wall = Wall::start();
             let store = Arc::new(FaultStore::new(inner));
-            let fp = match first_life(pool, store.clone(), history, None).await {
-                Ok(fp) => fp,
+            let (fp, pre_sets) = match first_life(pool, store.clone(), history, None).await {
+                Ok(x) => x,
                 Err(e) => {
                     let key = if e.starts_with("ACK-NOT-DURABLE") { "acknowledged-mutation-not-in-storage" } else if e.starts_with("HARNESS") { "harness/first-life" } else { "first-life-failed" };
                     st.violation(key, || e.clone(), || case_json(pool, store_name, history, "would be lost by a restart at any later point", None));
@@ -318,7 +358,7 @@ where
             st.inc("crash_points");
             st.inc("crash_points_between_requests");
             let case = || case_json(pool, store_name, history, "after the last request", None);
-            if let Some((group, _rows)) = restart_and_compare(store.clone(), pool, st, &case, "between-requests").await {
+            if let Some((group, _rows)) = restart_and_compare(store.clone(), pool, st, &case, "between-requests", Some(&pre_sets)).await {
                 // the restarted node keeps working: one more request, then C02's agreement
                 if let Some(next) = al.get(history.len() % al.len()) {
                     let ks = group.get_or_create_keyspace(KEYSPACES[next.ks]).await;
@@ -376,7 +416,7 @@ async fn execute_mid_request<I>(
             st.inc("crash_points_inside_a_request");
             let crash = format!("inside the request, after storage wrote {k} document(s) and before the set was updated");
             let case = || case_json(pool, store_name, history, &crash, Some(next));
-            restart_and_compare(store.clone(), pool, st, &case, "inside-a-request").await;
+            restart_and_compare(store.clone(), pool, st, &case, "inside-a-request", None).await;
         })
         .await
 }
@@ -447,11 +487,11 @@ fn persistent_case(pool: &[Op], backend: &'static str, n: usize, history: &[KSte
                 let _wall = Wall::start();
                 if backend == "sqlite-file" {
                     let inner = Arc::new(SqliteStorage::open(dir.join("db.sqlite")).await.expect("open sqlite"));
-                    first_life(pool, Arc::new(FaultStore::new(inner)), history, in_flight).await.map(|_| ())
+                    first_life(pool, Arc::new(FaultStore::new(inner)), history, in_flight).await.map(|x| x.1)
                 } else {
                     let inner = Arc::new(LmdbStorage::open(&dir).await.expect("open lmdb"));
                     lmdb_env = Some(inner.handle().env().clone());
-                    first_life(pool, Arc::new(FaultStore::new(inner)), history, in_flight).await.map(|_| ())
+                    first_life(pool, Arc::new(FaultStore::new(inner)), history, in_flight).await.map(|x| x.1)
                 }
             })
             .await
@@ -464,11 +504,14 @@ fn persistent_case(pool: &[Op], backend: &'static str, n: usize, history: &[KSte
     } else {
         std::thread::sleep(std::time::Duration::from_millis(2));
     }
-    if let Err(e) = first {
-        st.violation(if e.starts_with("HARNESS") { "harness/first-life" } else { "first-life-failed" }, || e.clone(), || case_json(pool, backend, history, "-", in_flight.map(|x| x.0)));
-        let _ = std::fs::remove_dir_all(&dir);
-        return;
-    }
+    let pre_sets = match first {
+        Ok(p) => Some(p),
+        Err(e) => {
+            st.violation(if e.starts_with("HARNESS") { "harness/first-life" } else { "first-life-failed" }, || e.clone(), || case_json(pool, backend, history, "-", in_flight.map(|x| x.0)));
+            let _ = std::fs::remove_dir_all(&dir);
+            return;
+        },
+    };
     st.inc("crash_points");
     st.inc("real_reopens");
     let crash = match in_flight {
@@ -482,11 +525,11 @@ fn persistent_case(pool: &[Op], backend: &'static str, n: usize, history: &[KSte
         let kind = if in_flight.is_some() { "inside-a-request" } else { "between-requests" };
         if backend == "sqlite-file" {
             let store = Arc::new(SqliteStorage::open(dir.join("db.sqlite")).await.expect("reopen sqlite"));
-            restart_and_compare(store, pool, st, &case, kind).await;
+            restart_and_compare(store, pool, st, &case, kind, if in_flight.is_none() { pre_sets.as_ref() } else { None }).await;
         } else {
             let store = Arc::new(LmdbStorage::open(&dir).await.expect("reopen lmdb"));
             env_again = Some(store.handle().env().clone());
-            restart_and_compare(store, pool, st, &case, kind).await;
+            restart_and_compare(store, pool, st, &case, kind, if in_flight.is_none() { pre_sets.as_ref() } else { None }).await;
         }
     });
     if let Some(env) = env_again.take() {
@@ -503,13 +546,13 @@ pub fn run(tier: Tier) -> i32 {
     let mut total = Stats::default();
     let mut runs = Vec::new();
 
-    let depth = tier.pick(3, 4);
-    let cap = tier.pick(3_000, 30_000);
+    let depth = tier.pick(4, 5);
+    let cap = tier.pick(30_000, 300_000);
     let (st, sum) = explore("harness map store", || Arc::new(MapStore::default()), &pool, &al, depth, cap);
-    runs.push(J::obj().set("store", "harness map store").set("states", sum.states).set("histories", sum.transitions).set("depth", sum.depth_reached));
+    runs.push(J::obj().set("store", "harness map store").set("states", sum.states).set("histories", sum.transitions).set("depth", sum.depth_reached).set("state_cap", cap).set("state_cap_hit", sum.state_cap_hit).set("complete_to_depth", if sum.state_cap_hit { sum.depth_reached.saturating_sub(1) } else { sum.depth_reached }));
     total.merge(st);
     let (st, sum2) = explore("MemStore", || Arc::new(MemStore::default()), &pool, &al, depth, cap);
-    runs.push(J::obj().set("store", "MemStore").set("states", sum2.states).set("histories", sum2.transitions).set("depth", sum2.depth_reached));
+    runs.push(J::obj().set("store", "MemStore").set("states", sum2.states).set("histories", sum2.transitions).set("depth", sum2.depth_reached).set("state_cap", cap).set("state_cap_hit", sum2.state_cap_hit).set("complete_to_depth", if sum2.state_cap_hit { sum2.depth_reached.saturating_sub(1) } else { sum2.depth_reached }));
     total.merge(st);
 
     if tier.is_thorough() {
@@ -564,7 +607,10 @@ pub fn run(tier: Tier) -> i32 {
     );
     report.cover("runs", J::Arr(runs));
     report.cover("alphabet_size", al.len());
-    report.cover("exhaustive", true);
+    report.cover("exhaustive", !(sum.state_cap_hit || sum2.state_cap_hit));
+    if sum.state_cap_hit || sum2.state_cap_hit {
+        report.cover("cap_note", "the state cap was reached in the last BFS layer: every history up to complete_to_depth is covered, the last layer only in part");
+    }
     report.guard_nonzero("guard_crash_points_inside_a_request", inside);
     report.guard_nonzero("guard_crash_points_between_requests", between);
     report.guard_nonzero("guard_keyspaces_compared", compared);
